@@ -207,6 +207,19 @@ CHECKS["C20"] = dict(
         "the exhaustive part of this property lives in the Frame/OperandsUnchanged/AssignLocal action properties of Table.tla, Records.tla, CharArray.tla.",
    technique="TLA+ frame-condition spec model-checked by TLC; TLC trace validation of recorded calls (digests before/after, results of repeated calls)",
    design="6/C20")
+CHECKS["C02"] = dict(
+   text="spec/Formats.tla states, from the format definitions, what a file's text means: lines (CR dropped), comment/header lines that "
+        "never become entries, tab-separated columns by kind (verbatim text; integers by value; VCF POS 1-based -> 0-based; '.' as "
+        "missing optional integer; floats as exact rationals incl. lower-case scientific notation; strands; comma-separated integer "
+        "lists with optional trailing comma; SAM's rest-of-line tags), typed VCF INFO keys by header declaration (exact key match, flags, "
+        "missing values, integer lists) and per-sample genotype strings, FASTA wrapped at any width, FASTQ line roles and Phred+33. "
+        "MC_C02 assembles well-formed files of 17 format variants line by line from sample records with non-canonical spellings, "
+        "optional header/interior comment lines, LF/CRLF, with/without final newline; TLC checks EntriesAreRecords and prints each "
+        "file with its meaning; every file is read lazily, eagerly and in chunks. Larger grammar-generated random files are read and "
+        "TLC decides obs = Parse(text) (Trace_C02).",
+   note=TB + "Integers below 2^31 and floats with short exact expansions (64-bit values and float accuracy are C18's subject); a missing optional integer is represented by the library as 0.",
+   technique="TLA+ executable format semantics; TLC-enumerated files replayed into the readers; TLC trace validation of random grammar files",
+   design="6/C02")
 PENDING = {}
 def main():
     props = [json.loads(l)["id"] for l in open(os.path.join(HERE, "properties.jsonl"))]
